@@ -181,6 +181,12 @@ Kind(n, t, kd) ==
     [] kd = "dt"   -> Plain(n, IF t = 1 THEN 2 ELSE 1, 1, 1, 0)                      \* disagrees on degree
     [] kd = "dh"   -> LET mb == Plain(n, t, 1, 1, 0) IN [mb EXCEPT !.v.pgH = 1]      \* disagrees on H (and is invalid)
     [] kd = "dg"   -> LET mb == Plain(n, t, 1, 1, 0) IN [mb EXCEPT !.v.pgG = 1]      \* disagrees on G_1
+    [] kd = "dhc"  -> LET mb == Plain(n, t, 1, 1, 0) IN [mb EXCEPT !.v.pgH = 2]      \* only the cached ENCODING of H differs (public field)
+    [] kd = "dgc"  -> LET mb == Plain(n, t, 1, 1, 0) IN [mb EXCEPT !.v.pgG = 200]    \* only the cached encoding of G_1 differs
+    [] kd = "v32"  -> Plain(n, t, 32, 32, 0)
+    [] kd = "v64"  -> Plain(n, t, 64, 64, 0)
+    [] kd = "dup16"  -> [Plain(n, t, 16, 16, 0) EXCEPT !.bseed = 7]                  \* the same aggregated triple twice ...
+    [] kd = "dup16L" -> LET mb == [Plain(n, t, 16, 16, 0) EXCEPT !.bseed = 7] IN [mb EXCEPT !.v.label = 1]   \* ... the second in an altered context
     [] kd = "vn"   -> LET mb == Plain(n, t, 1, 1, 0) IN [mb EXCEPT !.v.n = 2 * n]   \* only the verifier-side bit length is raised
     [] kd = "vt"   -> LET mb == Plain(n, t, 1, 1, 0) IN [mb EXCEPT !.v.t = t + 1]   \* only the verifier-side degree is raised
     [] kd = "dh8"  -> LET mb == Plain(n, t, 8, 8, 0) IN [mb EXCEPT !.v.pgH = 1]      \* disagrees on H and is the largest member
@@ -212,6 +218,14 @@ FamBatch ==
             ms \in { <<Kind(64, 1, "v16"), Kind(64, 1, "v1"), Kind(64, 1, "xs")>>, <<Kind(64, 1, "v1"), Kind(64, 1, "v16"), Kind(64, 1, "v1")>>,
                       <<Kind(64, 1, "v16"), Kind(64, 1, "v16"), Kind(64, 1, "v1"), Kind(64, 1, "xk")>> } }
   \cup { ScenF(Mem(l, nt), mode, NoSkew, FALSE, <<Kind(nt[1], nt[2], "v1")>>) : l \in {l \in Lay : Good(l)}, nt \in NT, mode \in {"VerifyOnly", "RecoverAndVerify"} }
+  \* the FIRST statement's cached generator encodings are what every member's transcript absorbs: altered there, with the largest member later
+  \cup { ScenF(<<Kind(4, 1, d)>> \o rest, "VerifyOnly", NoSkew, FALSE, <<Kind(4, 1, "v1")>>) :
+          d \in {"dhc", "dgc"}, rest \in { <<Kind(4, 1, "v2")>>, <<Kind(4, 1, "v1"), Kind(4, 1, "v4c8"), Kind(4, 1, "v1")>>, <<Kind(4, 1, "v1")>> } }
+  \* the same aggregated triple twice in a row, the second time in another context; and honest runs of it
+  \cup { ScenF(ms, "VerifyOnly", NoSkew, FALSE, <<Kind(4, 1, "v1")>>) :
+          ms \in { <<Kind(4, 1, "dup16"), Kind(4, 1, "dup16L")>>, <<Kind(4, 1, "dup16"), Kind(4, 1, "dup16")>>, <<Kind(4, 1, "v1"), Kind(4, 1, "dup16"), Kind(4, 1, "dup16L")>> } }
+  \* full chunks of heavily aggregated members (the final check of one chunk then has well over 8192 terms)
+  \cup { ScenF(<<Kind(nk[1], 1, nk[2]), Kind(nk[1], 1, nk[2])>>, "VerifyOnly", NoSkew, FALSE, <<Kind(nk[1], 1, nk[2])>>) : nk \in {<<2, "v32">>, <<1, "v64">>} }
   \cup { ScenF(Mem([k |-> k, pt |-> 2, a |-> 0, ka |-> "xs", b |-> 0, kb |-> "xs"], <<4, 1>>), "VerifyOnly", sk, FALSE, <<Kind(4, 1, "v1")>>) : k \in {1, 2, MaxBatch + 1}, sk \in Sk }
 
 (***************************************************************************************************)
